@@ -252,6 +252,81 @@ def run(chk, repo):
             chk.decide(ok, "C01.lazy-shortest", W, "iterable operands are zipped, others repeated: " +
                        (unparse(ifs[1].test) if len(ifs) > 1 else "?"),
                        why="iterables must be paired element by element, non-iterables closed over", node=inner)
+    # which arm for which operand, and the operator registry (decision tables)
+    from ..dtable import Facts, walk
+    chk.rule("C01.dispatch", "decision tables: a Stream operator returns NotImplemented exactly for operands of an ignored "
+                             "class, zips with iterables and closes over anything else; OpMethod._insert files every "
+                             "operator under all its keys (first one creates the list, later ones are appended; "
+                             "reflected ones also under 'r'); the table is initialised when lazy_core is imported; the "
+                             "metaclass refuses only a missing template")
+    for kind in ("__binary__", "__rbinary__"):
+        t = repo.find("lazy_stream", "StreamMeta." + kind)
+        inner = [f for f in t.body if isinstance(f, FuncTypes)][0]
+        Wd = "%s:StreamMeta.%s" % (smod.relpath, kind)
+        o_ = inner.args.args[1].arg
+        try:
+            for ok_kind in ("ignored", "iterable", "scalar"):
+                F = Facts(kinds={o_: {"cls.__ignored_classes__", "Iterable"} if ok_kind == "ignored" else
+                                 ({"list", "Iterable"} if ok_kind == "iterable" else {"float"})},
+                          types={"Iterable", "cls.__ignored_classes__"})
+                w = walk(docstring_free(inner.body), F, "StreamMeta." + kind)
+                last = unparse(w.last) if w.last is not None else w.end
+                if ok_kind == "ignored":
+                    okd = last == "return NotImplemented"
+                elif ok_kind == "iterable":
+                    okd = w.end == "return" and "iter(%s)" % o_ in last and "lambda" not in last
+                else:
+                    okd = w.end == "return" and "lambda" in last and "iter(%s)" % o_ not in last
+                chk.decide(okd, "C01.dispatch", Wd, "<%s> operand -> %s" % (ok_kind, last[:80]),
+                           why="ignored classes get NotImplemented (so that their own reflected operator runs), iterables "
+                               "are paired element by element, anything else is repeated", node=inner)
+        except AnalysisError as ex:
+            chk.defer(str(ex))
+    ins_body = docstring_free(ins.body)
+    reg_loops = [st for st in ins_body if isinstance(st, ast.For) and "_all" in unparse(st)]
+    chk.require(len(reg_loops) == 1, "OpMethod._insert: registry loop not found")
+    kv_ = unparse(reg_loops[0].target)
+    try:
+        for present in (False, True):
+            F = Facts(truths={"%s not in cls._all" % kv_: not present, "%s in cls._all" % kv_: present})
+            w = walk(reg_loops[0].body, F, "OpMethod._insert registry")
+            chk.decide(w.texts() in ((["cls._all[%s].append(self)" % kv_] if present else ["cls._all[%s] = [self]" % kv_]),
+                                     ["cls._all.setdefault(%s, []).append(self)" % kv_]),
+                       "C01.dispatch", "%s:OpMethod._insert" % cmod.relpath,
+                       "key %s -> %s" % ("already present" if present else "new", "; ".join(w.texts())),
+                       why="every operator must end up in the list of each of its keys", node=reg_loops[0])
+        pre_ = [st for st in ins_body if st is not reg_loops[0]]
+        for rev_ in (True, False):
+            F = Facts(truths={"self.rev": rev_})
+            w = walk([st for st in pre_ if isinstance(st, ast.If) or (isinstance(st, ast.Assign) and unparse(st.targets[0]) == "keys")],
+                     F, "OpMethod._insert keys")
+            t_ = w.texts()
+            has_r = any(x in ("keys.append('r')", "keys += ['r']") for x in t_)
+            base_keys = [x for x in t_ if x.startswith("keys = [")]
+            okk = has_r == rev_ and len(base_keys) == 1 and all(k_ in base_keys[0] for k_ in ("'all'", "self.symbol", "self.name", "self.dname"))
+            chk.decide(okk, "C01.dispatch", "%s:OpMethod._insert" % cmod.relpath,
+                       "%s operator filed under %s" % ("reflected" if rev_ else "plain", "; ".join(t_)[:110]),
+                       why="keys 'all', symbol, name, dunder name (and 'r' for reflected operators) select the operators of a class",
+                       node=ins)
+    except AnalysisError as ex:
+        chk.defer(str(ex))
+    inits = [st for st in cmod.tree.body if isinstance(st, ast.Expr) and unparse(st.value) == "OpMethod._initialize()"]
+    cls_pos = [i for i, st in enumerate(cmod.tree.body) if isinstance(st, ast.ClassDef) and st.name == "AbstractOperatorOverloaderMeta"]
+    chk.decide(len(inits) == 1 and cls_pos and cmod.tree.body.index(inits[0]) < cls_pos[0], "C01.dispatch",
+               "%s:<module>" % cmod.relpath, "OpMethod._initialize() runs at import, before the metaclass is defined",
+               why="without it the operator table is empty and no class gets any operator", node=inits[0] if inits else cmod.tree)
+    try:
+        guards_ = [n for n in ast.walk(new) if isinstance(n, ast.If) and "callable(dunder)" in unparse(n.test)]
+        chk.require(len(guards_) == 1, "AbstractOperatorOverloaderMeta.__new__: template guard not found")
+        for cal in (True, False):
+            w = walk([guards_[0]], Facts(truths={"callable(dunder)": cal}), "metaclass template guard")
+            chk.decide((w.end == "raise" and "TypeError" in unparse(w.last)) if not cal else w.end == "fall", "C01.dispatch",
+                       "%s:AbstractOperatorOverloaderMeta.__new__" % cmod.relpath,
+                       "template %s -> %s" % ("callable" if cal else "missing", unparse(w.last)[:60] if w.last is not None else "installed"),
+                       why="only a class without a template for a requested operator is refused", node=new)
+    except AnalysisError as ex:
+        chk.defer(str(ex))
+
     # closure freshness of the scalar arm
     chk.rule("C01.closure", "the function mapped over the stream in the scalar arm is a lambda written in the dunder "
                             "itself (a fresh closure over this call's operand); it never comes from a memoising helper "
